@@ -7,6 +7,12 @@ props = [json.loads(l) for l in open("properties.jsonl")]
 kf = json.load(open("known_findings.json"))["findings"]
 for f in sorted(glob.glob("findings.d/*.json")):
     kf += json.load(open(f))["findings"]
+_seen = set(); _kf = []
+for f in kf:   # an entry recorded both in known_findings.json and in findings.d is listed once
+    k = (f.get("property"), f["id"], f.get("kind"))
+    if k not in _seen:
+        _seen.add(k); _kf.append(f)
+kf = _kf
 print("### 9.5 Per property, as built (from the last committed evidence of a quick run on the unchanged tree)\n")
 print("| id | Coq files (model / proofs) | theorems | quick: cases (distinct non-trivial) | wall s | known findings | repaired defects |")
 print("|---|---|---|---|---|---|---|")
@@ -19,7 +25,7 @@ for p in props:
     mods = sorted(os.path.basename(x) for x in glob.glob(f"coq/Model/{pid}_*.v") + glob.glob(f"coq/Spec/{pid}_*.v"))
     prfs = sorted(os.path.basename(x) for x in glob.glob(f"coq/Proofs/{pid}_*.v"))
     if pid == "C18":
-        mods = ["Keys.v", "SliceM.v", "Dual.v", "C18_Sites.v", "Spec/PySlice.v"]; prfs = ["KeysP.v", "SliceP.v", "DualP.v"]
+        mods = sorted(set(["Keys.v", "SliceM.v", "Dual.v", "Spec/PySlice.v"] + mods)); prfs = sorted(set(["KeysP.v", "SliceP.v", "DualP.v"] + prfs))
     lines = lambda fs, d: sum(len(open(g).read().split("\n")) for f in fs for g in glob.glob(f"coq/*/{f.split('/')[-1]}"))
     known = sorted({f["id"] for f in kf if f.get("property") == pid and f.get("kind") == "known"})
     fixed = sorted({f["id"] for f in kf if f.get("property") == pid and f.get("kind") == "fixed"})
